@@ -339,6 +339,9 @@ def case_result(case):
             target = {"absolute": Path(d) / "out" / "run1" / "result.yml", "relative": Path("rel") / "run1" / "result.yml",
                       "folder": Path(d) / "out" / "folder_target",
                       "symlink": Path(d) / "out" / "link" / "run1" / "result.yml"}[case["target"]]  # fmt: skip
+            if case["target"] != "relative":
+                # the scheme of the result was loaded from a file elsewhere (load_scheme -> optimize -> save_result)
+                result.scheme.source_path = (Path(d) / "project" / "schemes" / "s.yml").as_posix()
             paths = save_result(result, target, saving_options=options)
             folder = (Path(d) / target).parent if target.suffix else Path(d) / target
             unresolved = folder
